@@ -17,7 +17,6 @@ import (
 	"strings"
 	"testing"
 
-	"github.com/emmansun/gmsm/zuc"
 	"pgregory.net/rapid"
 	"verif/harness/gen"
 	"verif/harness/h"
@@ -74,18 +73,6 @@ func (k macKey) material() (key, iv []byte, count, bearer, dir uint32) {
 		iv = refEIA3IV(count, bearer, dir)
 	}
 	return
-}
-
-func newMAC(k macKey) (zuc.EIA, error) {
-	key, iv, count, bearer, dir := k.material()
-	switch k.Alg {
-	case algEIA3:
-		return zuc.NewHash(key, iv)
-	case algEIA3P:
-		return zuc.NewEIAHash(key, count, bearer, dir)
-	default:
-		return zuc.NewHash256(key, iv, k.tagSize())
-	}
 }
 
 // refTag is the definition's value for the first nbits bits of msg.
@@ -158,6 +145,9 @@ type finishCase struct {
 	Extra   int // bytes of p beyond ceil(nbits/8) (not part of the message)
 	Split   int // second pass: Write(p[:Split]) then Finish(p[Split:], nbits-8*Split)
 	Seed    uint64
+	D       discipline
+	Empty   int  // flavour of a zero-length p (nil / []byte{} / buf[:0])
+	Fail    bool // a Finish with a too short p is attempted first; it must not leave anything behind
 }
 
 var contentNames = []string{"random", "all-ones", "last-bit-only", "all-zero"}
@@ -197,6 +187,7 @@ func checkFinish(c finishCase, r *h.Rec) error {
 	ls.add(algNames[c.K.Alg])
 	ls.add("content:" + contentNames[c.Content])
 	bitClassLabels(ls, c.NBits)
+	c.D.label(ls)
 	if c.NBits%8 != 0 {
 		ls.add("bits-not-byte-aligned")
 	}
@@ -204,37 +195,52 @@ func checkFinish(c finishCase, r *h.Rec) error {
 	j := &judge{k: c.K, r: r, ls: ls}
 
 	p := buildBits(c)
-	orig := append([]byte{}, p...)
-	m, err := newMAC(c.K)
+	if len(p) == 0 {
+		ls.add("Finish(p=%s, 0)", emptyNames[c.Empty&3])
+	}
+	m, err := newMACd(c.K, c.D)
 	if err != nil {
-		return fmt.Errorf("constructor: %v", err)
+		return err
 	}
-	if m.Size() != c.K.tagSize() {
-		return fmt.Errorf("Size() = %d want %d", m.Size(), c.K.tagSize())
+	if m.m.Size() != c.K.tagSize() {
+		return fmt.Errorf("Size() = %d want %d", m.m.Size(), c.K.tagSize())
 	}
-	got := append([]byte{}, m.Finish(p, c.NBits)...)
-	if len(got) != c.K.tagSize() {
-		return fmt.Errorf("Finish returned %d bytes, tag size is %d", len(got), c.K.tagSize())
+	if c.Fail {
+		// a failed call first: one byte of p missing for a longer message
+		ls.add("reuse:after-failed-Finish")
+		g := gen.Fill(gen.Mix(c.Seed, 55), 40)
+		if err := m.finishTooShort(g, 8+c.NBits%300); err != nil {
+			return fmt.Errorf("%s: %v", algNames[c.K.Alg], err)
+		}
 	}
-	if !bytes.Equal(p, orig) {
-		return fmt.Errorf("Finish modified its input")
+	got, err := m.finish(p, c.NBits, c.Empty)
+	if err != nil {
+		return fmt.Errorf("%s, %d bits: %v", algNames[c.K.Alg], c.NBits, err)
 	}
 	if err := j.tag("Finish on a new object", p, c.NBits, got); err != nil {
 		return err
 	}
 	// Finish returned the object to its initial state: the same call again
 	// gives the same tag ...
-	if again := m.Finish(p, c.NBits); !bytes.Equal(again, got) {
-		return fmt.Errorf("%s, %d bits: second Finish on the same object = %s, first = %s (Finish did not return the object to its initial state)",
+	again, err := m.finish(p, c.NBits, c.Empty+1)
+	if err != nil {
+		return err
+	}
+	if !bytes.Equal(again, got) {
+		return fmt.Errorf("%s, %d bits: second Finish on the same object = %s, first = %s (Finish did not return the object to its initial state, or the object depends on memory of an earlier call)",
 			algNames[c.K.Alg], c.NBits, h.Hex(again), h.Hex(got))
 	}
 	// ... so does feeding the leading bytes through Write first ...
 	if c.Split > 0 {
 		ls.add("write-then-finish")
-		if n, err := m.Write(p[:c.Split]); n != c.Split || err != nil {
-			return fmt.Errorf("Write returned (%d, %v)", n, err)
+		if err := m.write(p[:c.Split], 0); err != nil {
+			return err
 		}
-		if split := m.Finish(p[c.Split:], c.NBits-8*c.Split); !bytes.Equal(split, got) {
+		split, err := m.finish(p[c.Split:], c.NBits-8*c.Split, c.Empty+2)
+		if err != nil {
+			return err
+		}
+		if !bytes.Equal(split, got) {
 			return fmt.Errorf("%s, %d bits: Write(%d bytes)+Finish(rest) = %s, Finish(all) = %s",
 				algNames[c.K.Alg], c.NBits, c.Split, h.Hex(split), h.Hex(got))
 		}
@@ -242,8 +248,14 @@ func checkFinish(c finishCase, r *h.Rec) error {
 	// ... and a different message afterwards is MACed as by a new object.
 	n2 := int(gen.Mix(c.Seed, uint64(c.NBits), 77) % 40)
 	msg2 := gen.Fill(gen.Mix(c.Seed, 78), n2)
-	m.Write(msg2)
-	if err := j.tag(fmt.Sprintf("Write(%d bytes)+Sum after Finish", n2), msg2, 8*n2, m.Sum(nil)); err != nil {
+	if err := m.write(msg2, c.Empty+3); err != nil {
+		return err
+	}
+	s2, err := m.sum(c.NBits + c.Content)
+	if err != nil {
+		return err
+	}
+	if err := j.tag(fmt.Sprintf("Write(%d bytes)+Sum after Finish", n2), msg2, 8*n2, s2); err != nil {
 		return err
 	}
 	return nil
@@ -268,6 +280,9 @@ func TestC11_MACFinishBits(t *testing.T) {
 							ks = x % 16
 						}
 						c := finishCase{K: macKey{alg, ks}, NBits: n, Content: content, Seed: x}
+						c.D = discipline{Scribble: x>>24%3 != 0, Spare: x>>28%4 == 0}
+						c.Empty = int(x>>32) % 4
+						c.Fail = x>>36%4 == 0
 						if x%3 == 0 {
 							c.Extra = int(x>>8) % 20
 						}
@@ -285,12 +300,15 @@ func TestC11_MACFinishBits(t *testing.T) {
 // ---------------------------------------------------------------- every byte length through Write...Sum
 
 type sumCase struct {
-	K     macKey
-	Len   int
-	Parts []int // write sizes, sum = Len
-	SumAt []int // indices of parts after which Sum is called (interleaved Sum)
-	Pre   int   // 0 new object; 1 garbage, Reset; 2 garbage, Finish; 3 garbage, Sum, Reset
-	Seed  uint64
+	K      macKey
+	Len    int
+	Parts  []int // write sizes, sum = Len
+	SumAt  []int // indices of parts after which Sum is called (interleaved Sum)
+	Pre    int   // 0 new object; 1 garbage, Reset; 2 garbage, Finish; 3 garbage, Sum, Reset
+	Seed   uint64
+	D      discipline
+	Empty  int // flavour of zero-length Write arguments
+	FailAt int // index of the part after which a failing Finish (p too short) is attempted; -1 = none
 }
 
 var preNames = []string{"new-object", "after-Reset", "after-Finish", "after-Sum+Reset"}
@@ -300,6 +318,7 @@ func checkSum(c sumCase, r *h.Rec) error {
 	ls.add(algNames[c.K.Alg])
 	ls.add("reuse:" + preNames[c.Pre])
 	bitClassLabels(ls, 8*c.Len)
+	c.D.label(ls)
 	switch {
 	case len(c.Parts) >= 2:
 		ls.add("writes>=2")
@@ -313,22 +332,30 @@ func checkSum(c sumCase, r *h.Rec) error {
 	j := &judge{k: c.K, r: r, ls: ls}
 	msg := gen.Fill(gen.Mix(c.Seed, uint64(c.Len)), c.Len)
 
-	m, err := newMAC(c.K)
+	m, err := newMACd(c.K, c.D)
 	if err != nil {
-		return fmt.Errorf("constructor: %v", err)
+		return err
 	}
 	if c.Pre > 0 {
 		g := gen.Fill(gen.Mix(c.Seed, 99), 1+int(gen.Mix(c.Seed, 98)%45))
 		switch c.Pre {
 		case 1:
-			m.Write(g)
-			m.Reset()
+			if err := m.write(g, 0); err != nil {
+				return err
+			}
+			m.m.Reset()
 		case 2:
-			m.Finish(g, 8*len(g)-int(gen.Mix(c.Seed, 97)%8))
+			if _, err := m.finish(g, 8*len(g)-int(gen.Mix(c.Seed, 97)%8), 0); err != nil {
+				return err
+			}
 		case 3:
-			m.Write(g)
-			m.Sum(nil)
-			m.Reset()
+			if err := m.write(g, 0); err != nil {
+				return err
+			}
+			if _, err := m.sum(c.Len); err != nil {
+				return err
+			}
+			m.m.Reset()
 		}
 	}
 	sumAt := map[int]bool{}
@@ -337,42 +364,67 @@ func checkSum(c sumCase, r *h.Rec) error {
 	}
 	done := 0
 	for i, n := range c.Parts {
-		if wn, err := m.Write(msg[done : done+n]); wn != n || err != nil {
-			return fmt.Errorf("Write returned (%d, %v) for %d bytes", wn, err, n)
+		if n == 0 {
+			ls.add("Write(%s)", emptyNames[(c.Empty+i)&3])
+		}
+		if err := m.write(msg[done:done+n], c.Empty+i); err != nil {
+			return err
 		}
 		done += n
 		if sumAt[i] {
-			s := m.Sum(nil)
+			s, err := m.sum(c.Len + i)
+			if err != nil {
+				return err
+			}
 			if err := j.tag(fmt.Sprintf("interleaved Sum after %d of %d bytes (%s, writes %v)", done, c.Len, preNames[c.Pre], c.Parts), msg[:done], 8*done, s); err != nil {
 				return err
+			}
+		}
+		if i == c.FailAt {
+			ls.add("reuse:after-failed-Finish")
+			if err := m.finishTooShort(gen.Fill(gen.Mix(c.Seed, 96), 24), 1+int(gen.Mix(c.Seed, 95)%190)); err != nil {
+				return fmt.Errorf("%s after %d bytes: %v", algNames[c.K.Alg], done, err)
 			}
 		}
 	}
 	if done != c.Len {
 		return fmt.Errorf("harness: parts %v do not add up to %d", c.Parts, c.Len)
 	}
-	prefix := []byte{0xde, 0xad}
-	s1 := m.Sum(nil)
-	s2 := m.Sum(append([]byte{}, prefix...))
-	if len(s1) != c.K.tagSize() {
-		return fmt.Errorf("Sum(nil) returned %d bytes, tag size is %d", len(s1), c.K.tagSize())
-	}
-	if !bytes.Equal(s2[:2], prefix) || !bytes.Equal(s2[2:], s1) {
-		return fmt.Errorf("%s, %d bytes: Sum twice differs or does not append: Sum(nil) = %s, Sum(dead) = %s", algNames[c.K.Alg], c.Len, h.Hex(s1), h.Hex(s2))
-	}
-	if err := j.tag(fmt.Sprintf("Sum after writes %v (%s, Sum after parts %v)", c.Parts, preNames[c.Pre], c.SumAt), msg, 8*c.Len, s1); err != nil {
+	// Sum twice, with every flavour of the argument (nil, empty, buf[:0], prefix, prefix with capacity)
+	s1, err := m.sum(c.Len)
+	if err != nil {
 		return err
 	}
-	// partition independence, model-free: one Write on a new object
-	f, _ := newMAC(c.K)
-	f.Write(msg)
-	if one := f.Sum(nil); !bytes.Equal(one, s1) {
-		return fmt.Errorf("%s, %d bytes: writes %v (%s, Sum after parts %v) give %s, a single Write on a new object gives %s",
-			algNames[c.K.Alg], c.Len, c.Parts, preNames[c.Pre], c.SumAt, h.Hex(s1), h.Hex(one))
+	for f := 1; f < sumFlavours; f++ {
+		s2, err := m.sum(c.Len + f)
+		if err != nil {
+			return err
+		}
+		if !bytes.Equal(s2, s1) {
+			return fmt.Errorf("%s, %d bytes: Sum(%s) = %s but an earlier Sum(%s) = %s (Sum disturbed the state, or depends on its argument)",
+				algNames[c.K.Alg], c.Len, sumInNames[(c.Len+f)%sumFlavours], h.Hex(s2), sumInNames[c.Len%sumFlavours], h.Hex(s1))
+		}
+	}
+	if err := j.tag(fmt.Sprintf("Sum after writes %v (%s, Sum after parts %v, failed Finish after part %d)", c.Parts, preNames[c.Pre], c.SumAt, c.FailAt), msg, 8*c.Len, s1); err != nil {
+		return err
+	}
+	// partition independence, model-free: one Write on a new, undisturbed object
+	f, err := newMACd(c.K, discipline{})
+	if err != nil {
+		return err
+	}
+	f.m.Write(msg)
+	if one := f.m.Sum(nil); !bytes.Equal(one, s1) {
+		return fmt.Errorf("%s, %d bytes: writes %v (%s, Sum after parts %v, failed Finish after part %d, scribble %v) give %s, a single Write on a new object gives %s",
+			algNames[c.K.Alg], c.Len, c.Parts, preNames[c.Pre], c.SumAt, c.FailAt, c.D.Scribble, h.Hex(s1), h.Hex(one))
 	}
 	// Sum did not disturb: Finish with no further bits gives the same tag
-	if fin := m.Finish(nil, 0); !bytes.Equal(fin, s1) {
-		return fmt.Errorf("%s, %d bytes: Finish(nil, 0) after Sum = %s, Sum = %s", algNames[c.K.Alg], c.Len, h.Hex(fin), h.Hex(s1))
+	fin, err := m.finish(nil, 0, c.Len)
+	if err != nil {
+		return err
+	}
+	if !bytes.Equal(fin, s1) {
+		return fmt.Errorf("%s, %d bytes: Finish(%s, 0) after Sum = %s, Sum = %s", algNames[c.K.Alg], c.Len, emptyNames[c.Len&3], h.Hex(fin), h.Hex(s1))
 	}
 	return nil
 }
@@ -418,8 +470,13 @@ func TestC11_MACWriteSum(t *testing.T) {
 			for alg := algEIA3; alg <= algMAC128; alg++ {
 				for v := 0; v < variants; v++ {
 					x := gen.Mix(h.Seed, uint64(n), uint64(alg), uint64(v), h.SubSeed("mac-write-sum"))
-					c := sumCase{K: macKey{alg, gen.Mix(x, 5) | 2}, Len: n, Seed: x, Pre: v % 4}
+					c := sumCase{K: macKey{alg, gen.Mix(x, 5) | 2}, Len: n, Seed: x, Pre: v % 4, FailAt: -1}
 					c.Parts = partition(n, x, v%4)
+					c.D = discipline{Scribble: x>>24%3 != 0, Spare: x>>28%4 == 0}
+					c.Empty = int(x>>32) % 4
+					if len(c.Parts) > 0 && x>>36%3 == 0 {
+						c.FailAt = int(x>>40) % len(c.Parts)
+					}
 					for i := range c.Parts {
 						if gen.Mix(x, uint64(i), 6)%3 == 0 {
 							c.SumAt = append(c.SumAt, i)
@@ -435,14 +492,16 @@ func TestC11_MACWriteSum(t *testing.T) {
 // ---------------------------------------------------------------- general call histories on one MAC object
 
 type mOp struct {
-	Op string // "W" Write(N bytes), "S" Sum, "R" Reset, "F" Finish(N bits)
+	Op string // "W" Write(N bytes), "S" Sum, "R" Reset, "F" Finish(N bits), "X" Finish(N bits) with p one byte too short (must panic)
 	N  int
+	E  int // flavour: of a zero-length Write / Finish argument, and of Sum's argument
 }
 
 type macOpsCase struct {
 	K    macKey
 	Ops  []mOp
 	Seed uint64
+	D    discipline
 }
 
 func (c macOpsCase) history() string {
@@ -452,11 +511,19 @@ func (c macOpsCase) history() string {
 			sb.WriteString(" ")
 		}
 		switch op.Op {
-		case "W", "F":
+		case "W", "F", "X":
 			fmt.Fprintf(&sb, "%s%d", op.Op, op.N)
+			if op.N == 0 {
+				sb.WriteString("(" + emptyNames[op.E&3] + ")")
+			}
+		case "S":
+			sb.WriteString("S(" + sumInNames[op.E%sumFlavours] + ")")
 		default:
 			sb.WriteString(op.Op)
 		}
+	}
+	if c.D.Scribble {
+		sb.WriteString(" +scribble")
 	}
 	return sb.String()
 }
@@ -464,25 +531,33 @@ func (c macOpsCase) history() string {
 func checkMACOps(c macOpsCase, r *h.Rec) error {
 	ls := &labelSet{r, map[string]bool{}}
 	ls.add(algNames[c.K.Alg])
+	c.D.label(ls)
 	j := &judge{k: c.K, r: r, ls: ls}
-	m, err := newMAC(c.K)
+	m, err := newMACd(c.K, c.D)
 	if err != nil {
-		return fmt.Errorf("constructor: %v", err)
+		return err
 	}
 	var msg []byte // the message since the object was last in its initial state
 	writes := 0
 	nt := false
+	afterFail := false
 	for i, op := range c.Ops {
 		data := gen.Fill(gen.Mix(c.Seed, uint64(i)), (op.N+7)/8*8)
+		if op.E < 0 {
+			op.E = 0
+		}
 		switch op.Op {
 		case "W":
-			if n, err := m.Write(data[:op.N]); n != op.N || err != nil {
-				return fmt.Errorf("Write returned (%d, %v)", n, err)
+			if op.N == 0 {
+				ls.add("Write(%s)", emptyNames[op.E&3])
+			}
+			if err := m.write(data[:op.N], op.E); err != nil {
+				return fmt.Errorf("op %d of [%s]: %v", i, c.history(), err)
 			}
 			msg = append(msg, data[:op.N]...)
 			writes++
 		case "S":
-			ls.add("op:Sum")
+			ls.add("op:Sum(%s)", sumInNames[op.E%sumFlavours])
 			bitClassLabels(ls, 8*len(msg))
 			if (8*len(msg))%128 != 0 || writes >= 2 {
 				nt = true
@@ -490,16 +565,26 @@ func checkMACOps(c macOpsCase, r *h.Rec) error {
 			if writes >= 2 {
 				ls.add("writes>=2")
 			}
-			s1 := m.Sum(nil)
+			if afterFail {
+				ls.add("reuse:result-after-failed-Finish")
+			}
+			s1, err := m.sum(op.E)
+			if err != nil {
+				return fmt.Errorf("op %d of [%s]: %v", i, c.history(), err)
+			}
 			if err := j.tag(fmt.Sprintf("op %d (Sum) of [%s]", i, c.history()), msg, 8*len(msg), s1); err != nil {
 				return err
 			}
-			if s2 := m.Sum(nil); !bytes.Equal(s1, s2) {
+			s2, err := m.sum(op.E + 1)
+			if err != nil {
+				return fmt.Errorf("op %d of [%s]: %v", i, c.history(), err)
+			}
+			if !bytes.Equal(s1, s2) {
 				return fmt.Errorf("op %d of [%s]: Sum twice: %s then %s", i, c.history(), h.Hex(s1), h.Hex(s2))
 			}
 		case "R":
 			ls.add("op:Reset")
-			m.Reset()
+			m.m.Reset()
 			msg, writes = nil, 0
 		case "F":
 			ls.add("op:Finish")
@@ -513,11 +598,32 @@ func checkMACOps(c macOpsCase, r *h.Rec) error {
 			if len(msg) > 0 {
 				ls.add("Finish-after-Write")
 			}
-			got := m.Finish(data[:nb], op.N)
+			if op.N == 0 {
+				ls.add("Finish(p=%s, 0)", emptyNames[op.E&3])
+			}
+			if afterFail {
+				ls.add("reuse:result-after-failed-Finish")
+			}
+			got, err := m.finish(data[:nb], op.N, op.E)
+			if err != nil {
+				return fmt.Errorf("op %d of [%s]: %v", i, c.history(), err)
+			}
 			if err := j.tag(fmt.Sprintf("op %d (Finish of %d more bits) of [%s]", i, op.N, c.history()), total, nbits, got); err != nil {
 				return err
 			}
 			msg, writes = nil, 0
+		case "X":
+			if op.N < 1 {
+				continue
+			}
+			ls.add("op:failed-Finish")
+			if len(msg) > 0 {
+				ls.add("failed-Finish-mid-message")
+			}
+			if err := m.finishTooShort(data, op.N); err != nil {
+				return fmt.Errorf("op %d of [%s]: %v", i, c.history(), err)
+			}
+			afterFail = true // the message so far is still pending: nothing may have changed
 		default:
 			return fmt.Errorf("harness: bad op %q", op.Op)
 		}
@@ -534,10 +640,16 @@ func genMACOps(algs []int) func(*rapid.T) macOpsCase {
 		c.K.Alg = rapid.SampledFrom(algs).Draw(t, "alg")
 		c.K.KeySeed = rapid.OneOf(rapid.Uint64Range(0, 1), rapid.Uint64()).Draw(t, "keySeed")
 		c.Seed = rapid.Uint64().Draw(t, "seed")
+		c.D.Scribble = rapid.IntRange(0, 2).Draw(t, "scribble") > 0
+		c.D.Spare = rapid.IntRange(0, 3).Draw(t, "spare") == 0
 		n := rapid.IntRange(1, 14).Draw(t, "nops")
 		for i := 0; i < n; i++ {
 			var op mOp
-			switch k := rapid.IntRange(0, 9).Draw(t, "op"); {
+			op.E = rapid.IntRange(0, 4).Draw(t, "flavour")
+			switch k := rapid.IntRange(0, 10).Draw(t, "op"); {
+			case k == 10:
+				op.Op = "X"
+				op.N = rapid.IntRange(1, 200).Draw(t, "xBits")
 			case k < 5:
 				op.Op = "W"
 				switch rapid.IntRange(0, 9).Draw(t, "wKind") {
@@ -569,7 +681,7 @@ func genMACOps(algs []int) func(*rapid.T) macOpsCase {
 			c.Ops = append(c.Ops, op)
 		}
 		// always end by observing the state
-		if last := c.Ops[len(c.Ops)-1].Op; last == "W" || last == "R" {
+		if last := c.Ops[len(c.Ops)-1].Op; last == "W" || last == "R" || last == "X" {
 			c.Ops = append(c.Ops, mOp{Op: "S"})
 		}
 		return c
@@ -582,4 +694,52 @@ func TestC11_MACOpsEIA3(t *testing.T) {
 
 func TestC11_MACOps256(t *testing.T) {
 	h.Prop(t, h.P{Name: "mac-ops-zuc256", Quick: 15000, Thorough: 300000, Journal: true}, genMACOps([]int{algMAC32, algMAC64, algMAC128}), checkMACOps)
+}
+
+// ---------------------------------------------------------------- lengths at which a 16-bit (24-bit) count would wrap
+
+// Messages of 65535 / 65536 / 65537 bytes and of 65535 / 65536 / 65537 bits
+// (thorough: also 2^24 bits), through one Write, through 4096-byte chunks and
+// through a ragged partition, and through Finish.
+func TestC11_MACLongMessages(t *testing.T) {
+	h.Sweep(t, h.P{Name: "mac-long-bytes", Journal: true}, func(emit func(sumCase)) {
+		for _, n := range []int{65535, 65536, 65537} {
+			for alg := algEIA3; alg <= algMAC128; alg++ {
+				for v := 0; v < 3; v++ {
+					x := gen.Mix(h.Seed, uint64(n), uint64(alg), uint64(v), 0x1076)
+					c := sumCase{K: macKey{alg, gen.Mix(x, 5) | 2}, Len: n, Seed: x, Pre: v, FailAt: -1}
+					switch v {
+					case 0:
+						c.Parts = []int{n}
+					case 1:
+						for left := n; left > 0; left -= min(left, 4096) {
+							c.Parts = append(c.Parts, min(left, 4096))
+						}
+					default:
+						c.Parts = []int{1, 65519, n - 65520 - 1, 1}
+						c.FailAt = 1
+					}
+					c.D = discipline{Scribble: v != 1, Spare: v == 2}
+					emit(c)
+				}
+			}
+		}
+	}, checkSum)
+	bits := []int{65535, 65536, 65537}
+	if h.Thorough() {
+		bits = append(bits, 1<<24-1, 1<<24, 1<<24+1)
+	}
+	h.Sweep(t, h.P{Name: "mac-long-bits", Journal: true}, func(emit func(finishCase)) {
+		for _, n := range bits {
+			for alg := algEIA3; alg <= algMAC128; alg++ {
+				if n > 1<<20 && alg != algEIA3 && alg != algMAC32 && n != 1<<24+1 {
+					continue // the bit-serial model with wide tags is slow at 2 MiB
+				}
+				x := gen.Mix(h.Seed, uint64(n), uint64(alg), 0x1077)
+				c := finishCase{K: macKey{alg, gen.Mix(x, 4) | 2}, NBits: n, Seed: x, Split: 1 + int(x>>16)%(n/8)}
+				c.D = discipline{Scribble: alg%2 == 0, Spare: alg == algMAC64}
+				emit(c)
+			}
+		}
+	}, checkFinish)
 }
